@@ -9,7 +9,7 @@ EXPLANATION = (
     "produces a value — integer results come from checked_* calls or from i128 widening whose narrowing cast back to i64 is dominated by a range "
     "test of the same value (comparison or RangeInclusive::contains). Index normalisation (`len + index`) and calendar-field arithmetic are named "
     "exceptions. Three-valued logic, equality and int/float comparison are value-level laws and are not decided."
-    " Added with the TRUTH engine: C23.4 Kleene folds (a null element result never ends list / map equality or IN); C23.5 AND / OR / XOR / NOT truth tables on {true, false, null} (30 rows, decided by walking the match's MIR decision tree per abstract input); C23.6 null propagation — each arithmetic / comparison / equality / string operator arm dispatches to a function whose match returns null for a null operand, for all 16 operand variants; C23.7 range comparison, ordering and equality never convert an integer operand to f64 on the (Int, Int), (Int, Float), (Float, Int) paths. Equality / ordering inside lists, maps and strings and transitivity in general remain value-level."
+    " Added with the TRUTH engine: C23.4 Kleene folds (a null element result never ends list / map equality or IN); C23.5 AND / OR / XOR / NOT truth tables on {true, false, null} (30 rows, decided by walking the match's MIR decision tree per abstract input); C23.6 null propagation — each arithmetic / comparison / equality / string operator arm dispatches to a function whose match returns null for a null operand, for all 16 operand variants; C23.7 range comparison, ordering and equality never convert an integer operand to f64 on the (Int, Int), (Int, Float), (Float, Int) paths. C23.9: list quantifiers any / all / none / single return a definite true / false after the fold only when no predicate result was null — the post-loop code is evaluated concretely for every (matches, saw-null) state. Equality / ordering inside lists, maps and strings and transitivity in general remain value-level."
 )
 
 CORE_PREFIX = ("nervusdb_query::evaluator::evaluator_numeric::", "nervusdb_query::evaluator::evaluator_arithmetic::",
@@ -281,6 +281,7 @@ def run(ctx):
     # merges neighbours: `9007199254740993 > 9007199254740992` is false while `>=` and `<=` are true, and
     # `9007199254740993 = 9007199254740992.0 = 9007199254740992` breaks transitivity.  Decided per comparison entry point and per
     # integer-involving pair of kinds: the decision path (followed into the comparison helpers) contains no int->float conversion.
+    quantifier_rule(ctx)
     ctx.rule("C23.7", "range comparison, ordering and equality never convert an integer operand to f64 on the (Int, Int), (Int, Float) and (Float, Int) paths")
     FAMILY = ("nervusdb_query::evaluator::evaluator_compare::", "nervusdb_query::evaluator::evaluator_equality::")
     LOSSY_CALLS = ("nervusdb_query::evaluator::evaluator_numeric::value_as_f64",)
@@ -380,3 +381,155 @@ def run(ctx):
                            % (rv[3], rv[4]), "%s:%d" % (b.file, st[3]))
                 k += 1
     ctx.floor("C23.8", "narrowing casts of i64 / i128 in the evaluator", n8, 8)
+
+
+# ---------------------------------------------------------------------------------------------- C23.9
+QUANT_FN = "nervusdb_query::evaluator::evaluator_comprehension::evaluate_quantifier"
+# result after the loop, per (matches seen so far, a predicate result was null); a decisive element returns inside the loop
+QUANT_TABLES = {
+    "__quant_any": {(None, False): "F", (None, True): "N"},
+    "__quant_all": {(None, False): "T", (None, True): "N"},
+    "__quant_none": {(None, False): "T", (None, True): "N"},
+    "__quant_single": {(0, False): "F", (1, False): "T", (0, True): "N", (1, True): "N"},
+}
+
+
+class _Undecided(Exception):
+    pass
+
+
+def _run_blocks(b, start, env, limit=200):
+    """concrete evaluation of straight-line integer / bool code from `start` until the return place receives a Value aggregate"""
+    from ..facts import op_local, op_const
+    env = dict(env)
+
+    def val(op):
+        k = op_const(op)
+        if k is not None:
+            return k.get("v")
+        if op[0] in ("c", "m") and not op[1][1]:
+            if op[1][0] in env:
+                return env[op[1][0]]
+        raise _Undecided("value of %r is not known" % (op,))
+
+    cur = start
+    for _ in range(limit):
+        for st in b.blocks[cur]["s"]:
+            if st[0] != "a":
+                continue
+            dst, rv = st[1], st[2]
+            if rv[0] == "agg" and rv[1] == "adt" and rv[2].endswith("core_types::Value") and not dst[1]:
+                res = None
+                if rv[3] == "Null":
+                    res = "N"
+                elif rv[3] == "Bool":
+                    v = val(rv[4][0])
+                    res = "T" if v else "F"
+                else:
+                    res = rv[3]
+                if dst[0] == 0:
+                    return res
+                env[dst[0]] = ("value", res)
+                continue
+            if dst[1]:
+                continue
+            try:
+                if rv[0] == "use":
+                    v = val(rv[1])
+                    if dst[0] == 0 and isinstance(v, tuple) and v[0] == "value":
+                        return v[1]
+                    env[dst[0]] = v
+                elif rv[0] == "bin" and rv[1] in ("Lt", "Le", "Gt", "Ge", "Eq", "Ne", "BitAnd", "BitOr"):
+                    x, y = val(rv[2]), val(rv[3])
+                    env[dst[0]] = {"Lt": x < y, "Le": x <= y, "Gt": x > y, "Ge": x >= y, "Eq": x == y, "Ne": x != y,
+                                   "BitAnd": bool(x) and bool(y), "BitOr": bool(x) or bool(y)}[rv[1]]
+                    env[dst[0]] = 1 if env[dst[0]] is True else (0 if env[dst[0]] is False else env[dst[0]])
+                elif rv[0] == "un" and rv[1] == "Not":
+                    env[dst[0]] = 0 if val(rv[2]) else 1
+                else:
+                    env.pop(dst[0], None)
+            except _Undecided:
+                env.pop(dst[0], None)
+        t = b.term(cur)
+        if t[0] == "goto":
+            cur = t[1]
+        elif t[0] == "drop":
+            cur = t[2]
+        elif t[0] == "switch":
+            v = val(t[1])
+            v = int(v) if not isinstance(v, tuple) else v
+            nxt = t[3]
+            for k, tb in t[2]:
+                if k == v:
+                    nxt = tb
+            cur = nxt
+        elif t[0] == "assert":
+            cur = t[5]
+        else:
+            raise _Undecided("cannot step over %s at bb%d" % (t[0], cur))
+    raise _Undecided("no result within %d blocks" % limit)
+
+
+def quantifier_rule(ctx, rid="C23.9"):
+    from ..facts import op_local, op_const
+    from ..mirutil import switch_on
+    ctx.rule(rid, "list quantifiers (any / all / none / single): after the fold a definite true / false is returned only when no predicate result was null "
+             "(a null element may be the deciding one); decided by evaluating the post-loop code for every (matches, saw-null) state")
+    b = ctx.body(QUANT_FN)
+    arms = {}
+    for c in b.calls():
+        if c.declared == "core::cmp::PartialEq::eq" and (c.callee.get("self") or "") == "str" and len(c.args) == 2:
+            k = op_const(c.args[1]) or op_const(c.args[0])
+            name = (k or {}).get("d", "").strip('"')
+            if name in QUANT_TABLES and c.target is not None:
+                sw = switch_on(b, c.target)
+                if sw and len(sw[2]) == 1:
+                    arms[name] = sw[3] if not sw[1] else sw[2][0][1]
+    ctx.floor(rid, "quantifier arms found", len(arms), 4)
+    for name, entry in sorted(arms.items()):
+        region = [x for x in range(len(b.blocks)) if b.dominates(entry, x) and not b.is_cleanup(x)]
+        nexts = [c for c in b.calls() if c.bb in region and c.declared == "core::iter::traits::iterator::Iterator::next"]
+        if len(nexts) != 1:
+            ctx.finding(rid, "%s:%s:loop" % (rid, name), "cannot find the fold loop of %s" % name, b.file)
+            continue
+        h = nexts[0].bb
+        loop = {x for x in b.reachable([h]) if h in b.reachable([x])} | {h}
+        # exit: the `None` arm of the switch on next()'s result
+        t = b.term(nexts[0].target)
+        if t[0] != "switch":
+            ctx.finding(rid, "%s:%s:exit" % (rid, name), "cannot find the loop exit of %s" % name, b.file)
+            continue
+        exit_bb = dict((k, tb) for k, tb in t[2]).get(0, t[3])
+        saw, cnt = set(), set()
+        for x in loop:
+            for st in b.blocks[x]["s"]:
+                if st[0] != "a" or st[1][1] or st[1][0] == 0:
+                    continue
+                rv = st[2]
+                if rv[0] == "use" and op_const(rv[1]) is not None and b.local_ty(st[1][0]) == "bool" and op_const(rv[1]).get("v") == 1 and b.local_name(st[1][0]):
+                    saw.add(st[1][0])
+                if rv[0] == "use" and rv[1][0] in ("c", "m") and rv[1][1][1] and b.local_ty(st[1][0]) == "usize":
+                    sd = b.single_def(rv[1][1][0])
+                    if sd and sd[2] == "assign" and sd[3][2][0] == "bin" and sd[3][2][1] == "AddWithOverflow" and op_local(sd[3][2][2]) == st[1][0]:
+                        cnt.add(st[1][0])
+        table = QUANT_TABLES[name]
+        needs_count = any(k[0] is not None for k in table)
+        if len(saw) != 1 or (needs_count and len(cnt) != 1):
+            ctx.finding(rid, "%s:%s:roles" % (rid, name), "%s: expected one flag set for a null predicate result%s inside the loop, found %d / %d — a null element "
+                        "does not seem to be remembered" % (name, " and one match counter" if needs_count else "", len(saw), len(cnt)), b.file)
+            continue
+        sv = list(saw)[0]
+        cv = list(cnt)[0] if cnt else None
+        for (m, n), want in sorted(table.items(), key=repr):
+            env = {sv: 1 if n else 0}
+            if cv is not None and m is not None:
+                env[cv] = m
+            try:
+                got = _run_blocks(b, exit_bb, env)
+            except _Undecided as e:
+                got = "undecided (%s)" % e
+            desc = "%s after the loop with %s%s" % (name.replace("__quant_", ""), "" if m is None else "%d match(es), " % m, "a null predicate result" if n else "no null predicate result")
+            ctx.instance(rid, "%s -> %s" % (desc, got))
+            ctx.oblige(got == want, rid, "%s:%s:%s:%s" % (rid, name, "-" if m is None else m, "null" if n else "nonull"),
+                       "%s returns %s, three-valued logic requires %s (a null predicate result may be the deciding element)" %
+                       (desc, {"T": "true", "F": "false", "N": "null"}.get(got, got), {"T": "true", "F": "false", "N": "null"}[want]), b.file)
